@@ -22,25 +22,71 @@ cp "$DEMO" "$WT/$PKG/"
 ( cd "$WT" && go test -vet=off -count=1 -run "^$TESTNAME\$" "./$PKG/" ) > /tmp/sv-$ID.mut.log 2>&1; MUT=$?
 echo "demo on clean tree: exit $CLEAN; with the change: exit $MUT"
 rm -f "$WT/$PKG/$(basename "$DEMO")"
+# the pinned suite with the change applied: every test of BASELINE.stable_pass must still pass
+SUITE=skipped
+if [ -z "${SEEDED_SKIP_SUITE:-}" ]; then
+  ( cd "$WT" && go test -mod=mod -json -vet=off -count=1 -timeout 25m ./... ) > /tmp/sv-$ID.suite.json 2>/dev/null
+  SUITE=$(python3 - /tmp/sv-$ID.suite.json <<'PY'
+import json,sys
+sp=set(json.load(open('/root/.vp/BASELINE.json'))['stable_pass'])
+ok=set()
+for l in open(sys.argv[1]):
+    try: d=json.loads(l)
+    except Exception: continue
+    if d.get('Test') and d.get('Action')=='pass': ok.add(d['Package']+'::'+d['Test'])
+miss=sorted(sp-ok)
+print("%d/%d%s"%(len(sp&ok),len(sp),(" missing: "+", ".join(miss[:5])) if miss else ""))
+PY
+)
+  rm -f /tmp/sv-$ID.suite.json
+fi
+echo "pinned suite with the change: $SUITE"
+export SEEDED_SUITE="$SUITE"
 shift 3
 OUT=$(cd "$V" && VERIF_REPO=$WT VERIF_EVIDENCE_DIR=/tmp/sv-$ID-ev "$@" bin/check "$PROP" quick 2>&1)
 RC=$?
 echo "$OUT" | grep -E "VIOLATION|KNOWN-FINDING|runs in|could not" | cut -c1-300
+echo "$OUT" > /tmp/sv-$ID.check.log
 echo "check exit: $RC"
 mkdir -p "$V/seeded/$ID"
+if [ "$(cd "$SRC" && pwd)" != "$V/seeded/$ID" ]; then
 cp "$SRC/patch.diff" "$V/seeded/$ID/patch.diff"
 cp "$DEMO" "$V/seeded/$ID/"
 [ -f "$SRC/notes.md" ] && cp "$SRC/notes.md" "$V/seeded/$ID/notes.md"
 [ -f "$SRC/demo.txt" ] && cp "$SRC/demo.txt" "$V/seeded/$ID/demo.txt"
+fi
 python3 - "$ID" "$PROP" "$CLEAN" "$MUT" "$RC" "$PKG" "$TESTNAME" <<'PY'
-import json,sys,os,re
+import json,sys,os,re,subprocess
 id,prop,clean,mut,rc,pkg,test=sys.argv[1:8]
-out=os.popen("true").read()
-p='/verif/seeded/%s/meta.json'%id
+d='/verif/seeded/%s'%id
+p=d+'/meta.json'
 old=json.load(open(p)) if os.path.exists(p) else {}
-old.update({"id":id,"breaks_property":prop,"demo_package":pkg,"demo_test":test,
+needs=""
+try:
+    notes=open(d+'/notes.md').read()
+    m=re.search(r'(?im)^#+\s*(what is needed[^\n]*|needs[^\n]*|what it needs[^\n]*)\n(.*?)(?=^#+\s|\Z)', notes, re.S)
+    if m: needs=" ".join(m.group(2).split())[:900]
+    title=notes.strip().splitlines()[0].lstrip('# ').strip()
+except Exception:
+    title=""
+log=open('/tmp/sv-%s.check.log'%id).read() if os.path.exists('/tmp/sv-%s.check.log'%id) else ""
+sigs=re.findall(r'(?m)^signature (\S+): (\d+) runs', log)
+runs=re.search(r'(\d+) runs in ([0-9.]+)s', log)
+head=subprocess.run(['git','-C','/repo','rev-parse','--short','HEAD'],capture_output=True,text=True).stdout.strip()
+old.update({"id":id,"breaks_property":prop,"what":title,"needs_to_manifest":needs,
+ "verified_against_repo_commit":head,
+ "ran":[
+   "go test -vet=off -count=1 -run '^%s$' ./%s/ in a scratch worktree of /repo: exit %s without the change, exit %s with it"%(test,pkg,clean,mut),
+   "go build ./... with the change: ok",
+   "pinned suite (go test -json -vet=off -count=1 ./...) with the change, tests of BASELINE.stable_pass passing: %s"%os.environ.get("SEEDED_SUITE","skipped"),
+   "VERIF_REPO=<scratch worktree with patch.diff applied> bin/check %s quick: exit %s%s"%(prop,rc,(" (%s runs in %s s)"%runs.groups()) if runs else ""),
+ ],
+ "demo_package":pkg,"demo_test":test,
  "demo_exit_clean_tree":int(clean),"demo_exit_with_change":int(mut),
  "check_cmd":"VERIF_REPO=<scratch worktree with patch.diff applied> bin/check %s quick"%prop,"check_exit":int(rc),
+ "check_signatures":[{"signature":a,"runs":int(b)} for a,b in sigs],
+ "suite_stable_pass": os.environ.get("SEEDED_SUITE","skipped"),
  "detected": int(rc)==1})
 json.dump(old,open(p,'w'),indent=1)
 PY
+rm -f /tmp/sv-$ID.check.log /tmp/sv-$ID.clean.log /tmp/sv-$ID.mut.log; rm -rf /tmp/sv-$ID-ev
